@@ -367,6 +367,29 @@ func (a *KeyArg) Parse() error {
 	return nil
 }
 
+// isIntegerValue reports whether s is an RFC 6020 non-negative-integer-value
+// ("0" or a decimal number without leading zeros), optionally preceded by
+// a minus sign (integer-value).  strconv with base 0 also accepts a
+// leading '+', octal, hex and binary prefixes and underscores - and reads
+// "010" as 8.
+func isIntegerValue(s string, allowNegative bool) bool {
+	if allowNegative {
+		s = strings.TrimPrefix(s, "-")
+	}
+	if s == "0" {
+		return true
+	}
+	if len(s) == 0 || s[0] < '1' || s[0] > '9' {
+		return false
+	}
+	for _, c := range s[1:] {
+		if c < '0' || c > '9' {
+			return false
+		}
+	}
+	return true
+}
+
 type UintArg struct {
 	arg
 	i uint
@@ -376,6 +399,9 @@ func (a *UintArg) Parse() error {
 	i, e := strconv.ParseUint(string(a.arg), 0, 32)
 	if e != nil {
 		return e
+	}
+	if !isIntegerValue(string(a.arg), false) {
+		return errors.New("invalid non-negative integer: " + string(a.arg))
 	}
 	a.i = uint(i)
 	return nil
@@ -390,6 +416,9 @@ func (a *IntArg) Parse() error {
 	i, e := strconv.ParseInt(string(a.arg), 0, 32)
 	if e != nil {
 		return e
+	}
+	if !isIntegerValue(string(a.arg), true) {
+		return errors.New("invalid integer: " + string(a.arg))
 	}
 	a.i = int(i)
 	return nil
@@ -687,6 +716,11 @@ func (a *LengthArg) Parse() error {
 			}
 		default:
 			return ErrInval
+		}
+		for _, b := range bs {
+			if b != "min" && b != "max" && !isIntegerValue(b, false) {
+				return ErrInval
+			}
 		}
 		a.lbs = append(a.lbs, l)
 	}
